@@ -66,7 +66,11 @@ var c11Methods = []c11Method{
 	{2, "SvcA", "A2", 2, nil},
 	{3, "SvcB", "B1", 3, &c11Rule{verb: "POST", tmpl: "/c11/bp", body: "*", key: c11Key{12, c11POST, true}, add: []c11Rule{
 		{verb: "GET", tmpl: "/c11/bx/{id}", key: c11Key{13, c11GET, true}},
-		{verb: "GET", tmpl: "/c11/by/{id}", key: c11Key{14, c11GET, true}}}}},
+		{verb: "GET", tmpl: "/c11/by/{id}", key: c11Key{14, c11GET, true}},
+		// a binding behind a variable child of a node that also has literal children leading to bindings of
+		// the same method: removal has to visit every subtree (a stale binding here answers Unimplemented
+		// instead of NotFound after the last backend is dropped)
+		{verb: "GET", tmpl: "/c11/{id}/vv", key: c11Key{17, c11GET, true}}}}},
 	{4, "SvcC", "C1", 4, &c11Rule{verb: "GET", tmpl: "/c11/by/{id}", key: c11Key{14, c11GET, true}}},
 	{5, "SvcL", "L1", 5, &c11Rule{verb: "GET", tmpl: "/c11/ll/{id}", key: c11Key{15, c11GET, true}}},
 	{6, "SvcX", "X1", 6, &c11Rule{verb: "GET", tmpl: "/c11/xx/{nofield}", key: c11Key{16, c11GET, false}}},
